@@ -52,13 +52,43 @@ func (p *Prog) mentionsSpec(t *Term, memo map[*Term]bool) bool {
 	return r
 }
 
+func hasQuant(t *Term, memo map[*Term]bool) bool {
+	if r, ok := memo[t]; ok {
+		return r
+	}
+	r := t.Op == "forall" || t.Op == "exists"
+	if !r {
+		for _, a := range t.Args {
+			if hasQuant(a, memo) {
+				r = true
+				break
+			}
+		}
+	}
+	memo[t] = r
+	return r
+}
+
 // smtTextX: with reduced=true, hypotheses about functional content are dropped (sound for proving).
 func (p *Prog) smtTextX(ob *Obligation, uses []string, reduced bool) string {
 	pr := NewPrinter()
 	var asserts []*Term
-	if reduced {
+	if reduced && ob.Kind == "lemma" {
+		asserts = append(asserts, ob.Assume...)
+	} else if reduced {
 		memo := map[*Term]bool{}
 		for _, a := range ob.Assume {
+			if ob.Fx != nil && ob.Fx.KeyFacts[a] {
+				asserts = append(asserts, a)
+				continue
+			}
+			if ob.Kind == "inv-step" || ob.Kind == "post" {
+				// proof-step mode: quantifier-free small facts only, plus the asserted steps
+				if !a.bound && !hasQuant(a, map[*Term]bool{}) && a.size < 3000 {
+					asserts = append(asserts, a)
+				}
+				continue
+			}
 			if !p.mentionsSpec(a, memo) && a.size < 3000 {
 				asserts = append(asserts, a)
 			}
@@ -175,6 +205,14 @@ func (p *Prog) smtTextX(ob *Obligation, uses []string, reduced bool) string {
 			}
 			done[file+":"+s] = true
 			for _, f := range sf.Sections[s] {
+				if reduced && (ob.Kind == "inv-step" || ob.Kind == "post" || ob.Kind == "lemma") {
+					// proof-step mode: defined spec functions are opaque symbols (fewer facts: sound)
+					if d, ok := p.OpaqueDecl[f]; ok {
+						f = d
+					} else if strings.HasPrefix(f, "(assert") {
+						continue
+					}
+				}
 				sb.WriteString(f)
 				sb.WriteByte('\n')
 			}
@@ -289,11 +327,19 @@ func (p *Prog) discharge(obls []*Obligation, usesOf func(*Obligation) []string, 
 		f := filepath.Join(outDir, fmt.Sprintf("%04d_%s.smt2", i, safeFile(ob.Name)))
 		os.WriteFile(f, []byte(txt), 0o644)
 		files[i] = f
+		tryReduced := false
 		switch ob.Kind {
 		case "frame", "bounds", "nil", "div", "variant", "assert":
+			tryReduced = true
+		case "inv-step", "post":
+			tryReduced = ob.Fx != nil && (ob.HasSteps || ob.Kind == "post")
+		case "lemma":
+			tryReduced = true
+		}
+		if tryReduced {
 			if !ob.MustFail {
 				rt := p.smtTextX(ob, usesOf(ob), true) + "(check-sat)\n"
-				if len(rt) < len(txt) {
+				if len(rt) < len(txt) || ob.Kind == "lemma" {
 					rf := filepath.Join(outDir, fmt.Sprintf("%04d_%s.reduced.smt2", i, safeFile(ob.Name)))
 					os.WriteFile(rf, []byte(rt), 0o644)
 					redFiles[i] = rf
